@@ -689,13 +689,29 @@ def clip(a, a_min=None, a_max=None, out=None, out_like=None, sizing='optimal', m
                 bound = bound.get_val()
             elif isinstance(bound, (list, tuple)):
                 bound = np.asarray(bound)
+            if isinstance(bound, (np.ndarray, np.generic)):
+                # numpy bounds are scaled as python integers / doubles (a narrow type like int8 would wrap around when it is multiplied by 2**n_frac)
+                if bound.dtype.kind in 'iub':
+                    bound = np.asarray(bound).astype(object)
+                elif bound.dtype.kind == 'f' and bound.dtype.itemsize < 8:
+                    bound = np.asarray(bound).astype(np.float64)
             return bound * 2**x.n_frac
 
         val_min = _raw_bound(val_min, -np.inf)
         val_max = _raw_bound(val_max, np.inf)
 
-        return utils.scale_raw(utils.clip(x.val, val_min=val_min, val_max=val_max), n_frac - x.n_frac)
+        # element by element on python numbers: every code that is not clipped stays exactly what it is, whatever the types of the bounds
+        raw = np.asarray(x.val)
+        clipped = np.minimum(np.maximum(raw.astype(object), val_min), val_max)
+        if raw.dtype != object and all(isinstance(v, (int, np.integer)) for v in np.asarray(clipped, dtype=object).flatten()):
+            clipped = np.asarray(clipped, dtype=object).astype(raw.dtype if raw.dtype.kind in 'iu' else np.int64)
+        return utils.scale_raw(clipped, n_frac - x.n_frac)
 
+    # (numpy 2.1 and later spell the bounds `min` and `max` as well)
+    if a_min is None and 'min' in kwargs:
+        a_min = kwargs.pop('min')
+    if a_max is None and 'max' in kwargs:
+        a_max = kwargs.pop('max')
     kwargs['a_min'] = a_min
     kwargs['a_max'] = a_max
     return _function_over_one_var(repr_func=np.clip, raw_func=_clip_raw, x=a, out=out, out_like=out_like, sizing=sizing, method=method, **kwargs)
